@@ -139,6 +139,25 @@ func classify(table, allow []string, name string) string {
 	return "unknown"
 }
 
+// allowShape labels (for the signature only) allow-lists with entries that are blank or only white space.
+func allowShape(allow []string) string {
+	blank, other := 0, 0
+	for _, a := range allow {
+		if strings.TrimSpace(a) == "" {
+			blank++
+		} else {
+			other++
+		}
+	}
+	switch {
+	case blank == 0:
+		return ""
+	case other == 0:
+		return "(allow-list-of-blank-names-only)"
+	}
+	return "(allow-list-with-a-blank-name)"
+}
+
 func relation(wrong, requested string) string {
 	switch {
 	case wrong == requested:
@@ -604,7 +623,7 @@ func (r *rig) judge(rc *reqCase, kindLabel, class, name string, exp int, ob *obs
 		rec.Inconclusive("busy at the stall watchdog", rc)
 		return false
 	}
-	sig := kindLabel + ":" + class + ":"
+	sig := kindLabel + ":" + class + allowShape(r.allowOf(rc)) + ":"
 	suffix := ""
 	if rc.Via != "client" {
 		suffix = ":" + rc.Via
@@ -1615,10 +1634,119 @@ func workload(rec *vcommon.Rec) []cfgSpec {
 			cfgSpec{Kind: k, Table: []string{"a", "echo"}, Allows: [][]string{{"A"}}, Bad: true, Space: "bad-allow-list"},
 			cfgSpec{Kind: k, Table: []string{"ab", "echo2"}, Allows: [][]string{{"a", "echo"}}, Bad: true, Space: "bad-allow-list"})
 	}
+	items = append(items, blankNameWorkload(rec, rng)...)
 	items = append(items,
 		cfgSpec{Kind: "ws", Table: []string{"a", "ab"}, Allows: [][]string{{"a"}, {"zz"}}, Bad: true, Space: "bad-allow-list"},
 		cfgSpec{Kind: "ws", Table: []string{"a", "ab"}, Allows: [][]string{{"ab", "A"}, nil}, Bad: true, Space: "bad-allow-list"},
 		cfgSpec{Kind: "ws", Table: []string{"abc", "echo"}, Allows: [][]string{nil, {"ab"}}, Bad: true, Space: "bad-allow-list"})
+	return items
+}
+
+// blankNameWorkload: degenerate names on the configuration side.
+//
+//	(A) "empty-named-channel": the channel table contains a channel whose name is the empty string
+//	    (protocol id "/"); allow-lists are every subset of the table in both orders, so [""] = "only the
+//	    empty-named channel" occurs next to nil/[] = "all", and next to lists that leave "" out.
+//	(B) "blank-allow-entry": tables WITHOUT such a channel and allow-lists with blank / white-space
+//	    entries (alone, repeated, mixed with real names at either end). Such an entry names a channel
+//	    that is not configured: start-up must fail, or else the endpoint is judged by the model (a
+//	    non-empty list exposes exactly the configured names it contains).
+func blankNameWorkload(rec *vcommon.Rec, rng interface{ Intn(int) int }) []cfgSpec {
+	var items []cfgSpec
+	const spA, spB = "empty-named-channel", "blank-allow-entry"
+	// (A) tcp: every ordered table {"", p} / {p, ""} with all allow-lists; websocket: seeded pairs, one of
+	// which always has [""] on a path
+	for _, p := range pool {
+		for _, tb := range [][]string{{"", p}, {p, ""}} {
+			als := allowLists(tb)
+			items = append(items, cfgSpec{Kind: "tcp", Table: tb, Allows: als, Space: spA})
+			items = append(items, cfgSpec{Kind: "ws", Table: tb, Allows: [][]string{{""}, als[rng.Intn(len(als))]}, Space: spA})
+			if rec.Thorough() {
+				items = append(items, cfgSpec{Kind: "ws", Table: tb, Allows: [][]string{als[rng.Intn(len(als))], {""}}, Space: spA},
+					cfgSpec{Kind: "ws", Table: tb, Allows: [][]string{als[rng.Intn(len(als))], als[rng.Intn(len(als))]}, Space: spA})
+			}
+		}
+	}
+	// tables of three or four channels with "" at a seeded position
+	withEmpty := func() []string {
+		tb := shuffled(rng, pool)[:2+rng.Intn(2)]
+		at := rng.Intn(len(tb) + 1)
+		out := append([]string{}, tb[:at]...)
+		out = append(out, "")
+		return append(out, tb[at:]...)
+	}
+	// the lists that decide: only "", everything but "", all, and seeded ones
+	lists := func(tb []string, n int) [][]string {
+		var rest []string
+		for _, c := range tb {
+			if c != "" {
+				rest = append(rest, c)
+			}
+		}
+		als := allowLists(tb)
+		out := [][]string{{""}, rest, nil}
+		for len(out) < n {
+			out = append(out, als[1+rng.Intn(len(als)-1)])
+		}
+		return out[:n]
+	}
+	for _, k := range []struct {
+		kind string
+		n, l int
+	}{{"tcp", rec.Pick(2, 10), 6}, {"unix", rec.Pick(3, 12), 6}, {"udp", rec.Pick(1, 6), 3}, {"stdio", rec.Pick(2, 8), 3}} {
+		for i := 0; i < k.n; i++ {
+			tb := withEmpty()
+			items = append(items, cfgSpec{Kind: k.kind, Table: tb, Allows: lists(tb, k.l), Space: spA})
+		}
+	}
+	for i := 0; i < rec.Pick(1, 3); i++ {
+		tb := withEmpty()
+		items = append(items, cfgSpec{Kind: "dns", Table: tb, Allows: lists(tb, 1+i%2)[i%2 : 1+i%2], Space: spA})
+	}
+	// (B) one degenerate list per configuration (a start-up error concerns the whole server command)
+	blanks := []string{"", "", "", " ", "\t", "  "}
+	degenerate := func(tb []string, form int) []string {
+		b := blanks[rng.Intn(len(blanks))]
+		switch form % 6 {
+		case 0:
+			return []string{""}
+		case 1:
+			return []string{"", ""}
+		case 2:
+			return []string{b, blanks[rng.Intn(len(blanks))], b}
+		case 3:
+			return []string{b}
+		case 4:
+			return []string{tb[rng.Intn(len(tb))], ""}
+		}
+		return []string{b, tb[rng.Intn(len(tb))]}
+	}
+	form := 0
+	for _, k := range []string{"tcp", "unix", "ws", "udp", "stdio", "dns"} {
+		n := rec.Pick(6, 12)
+		if k == "dns" || k == "stdio" {
+			n = rec.Pick(2, 6)
+		}
+		for i := 0; i < n; i++ {
+			tb := shuffled(rng, pool)[:2+rng.Intn(3)]
+			f := form
+			if k == "dns" || k == "stdio" {
+				f = i // the lists of blank names only come first
+			}
+			form++
+			c := cfgSpec{Kind: k, Table: tb, Allows: [][]string{degenerate(tb, f)}, Bad: true, Space: spB}
+			if k == "ws" {
+				// the other path: all, or a proper list
+				other := [][]string{nil, {tb[0]}, {tb[len(tb)-1], tb[0]}}[i%3]
+				if i%2 == 0 {
+					c.Allows = [][]string{c.Allows[0], other}
+				} else {
+					c.Allows = [][]string{other, c.Allows[0]}
+				}
+			}
+			items = append(items, c)
+		}
+	}
 	return items
 }
 
